@@ -1,6 +1,7 @@
 package main
 
 import (
+	"os"
 	"fmt"
 	"go/token"
 	"go/types"
@@ -324,6 +325,32 @@ func (x *Exec) static(site ssa.Instruction, fn *ssa.Function, bindings []Value, 
 	if isPureExternal(fn) {
 		return x.pureCall(fn, args, st)
 	}
+	if readOnlyGeneric(fn, site) {
+		// generic library functions that only read their arguments (maps.Keys, slices.Contains,
+		// slices.ContainsFunc with a side-effect-free predicate ...): nothing is written, the
+		// results are unknown values
+		x.u.usedAssumed[full+" (reads its arguments only; result unconstrained)"] = true
+		res := fn.Signature.Results()
+		var vals []Value
+		for i := 0; i < res.Len(); i++ {
+			r := x.u.W.Fresh("r."+sanitize(full), x.u.W.SortOf(res.At(i).Type()))
+			x.assumeTypeInv(r, res.At(i).Type(), x.curBlockReach, st)
+			vals = append(vals, r)
+		}
+		return resultValue(vals)
+	}
+	if freshSliceResult(fn) {
+		// library functions that build a new slice from their arguments (slices.Sorted, Collect,
+		// Clone): nothing that exists is written, the result is fresh memory of unknown content
+		x.u.usedAssumed[full+" (returns a freshly allocated slice, writes nothing; content unconstrained)"] = true
+		allocBefore := st.alloc
+		st.alloc = x.u.W.Fresh("alloc", SInt)
+		x.assume(Ge(st.alloc, allocBefore))
+		r := x.u.W.Fresh("r."+sanitize(full), x.u.W.SortOf(fn.Signature.Results().At(0).Type()))
+		x.assume(Or(Eq(SlCap(r), IntLit(0)), And(Ge(PBase(SlPtr(r)), allocBefore), Lt(PBase(SlPtr(r)), st.alloc))))
+		x.assumeTypeInv(r, fn.Signature.Results().At(0).Type(), x.curBlockReach, st)
+		return r
+	}
 	if readOnlyExternal(fn) {
 		// a side-effect-free library function over values and byte / string slices: it writes
 		// nothing that exists, its results are unknown values (a returned slice is fresh memory)
@@ -386,6 +413,125 @@ var sliceReaders = map[string]bool{"encoding/hex.EncodeToString": true, "encodin
 	"bytes.IndexByte": true, "bytes.HasPrefix": true, "bytes.HasSuffix": true, "bytes.Count": true, "bytes.TrimSpace": false, "bytes.ToLower": true, "bytes.ToUpper": true, "bytes.EqualFold": true,
 	"unicode/utf8.Valid": true, "unicode/utf8.RuneCount": true, "unicode/utf8.DecodeRune": true, "unicode/utf8.DecodeLastRune": true, "unicode/utf8.FullRune": true,
 	"crypto/sha256.Sum256": true, "crypto/sha256.Sum224": true, "crypto/sha1.Sum": true, "crypto/md5.Sum": true, "hash/crc32.ChecksumIEEE": true, "strings.Join": true}
+
+// readOnlyGeneric: generic functions of maps / slices that read their arguments and return values
+// or iterators. Those that take a predicate are admitted only when the predicate at this call
+// site is a function literal (or function) without side effects.
+func readOnlyGeneric(fn *ssa.Function, site ssa.Instruction) bool {
+	o := fn
+	if og := fn.Origin(); og != nil {
+		o = og
+	}
+	if o.Pkg == nil {
+		return false
+	}
+	res := fn.Signature.Results()
+	for i := 0; i < res.Len(); i++ {
+		switch res.At(i).Type().Underlying().(type) {
+		case *types.Basic, *types.Signature:
+		default:
+			return false
+		}
+	}
+	switch o.Pkg.Pkg.Path() + "." + o.Name() {
+	case "maps.Keys", "maps.Values", "maps.All", "slices.Contains", "slices.Index", "slices.Equal", "slices.IsSorted", "slices.Values", "slices.All":
+		return true
+	case "slices.ContainsFunc", "slices.IndexFunc", "slices.EqualFunc", "slices.IsSortedFunc":
+		c, ok := site.(ssa.CallInstruction)
+		if !ok {
+			return false
+		}
+		for _, a := range c.Common().Args {
+			if _, isSig := a.Type().Underlying().(*types.Signature); !isSig {
+				continue
+			}
+			var f *ssa.Function
+			switch v := resolveNaive(a).(type) {
+			case *ssa.MakeClosure:
+				f, _ = v.Fn.(*ssa.Function)
+			case *ssa.Function:
+				f = v
+			}
+			if f == nil || !sideEffectFree(f, 0) {
+				if os.Getenv("GOVC_DEBUG") != "" {
+					fmt.Fprintf(os.Stderr, "readOnlyGeneric %s: predicate %T %v not side-effect free (f=%v blocks=%d)\n", fn, resolveNaive(a), a, f, len(f.Blocks))
+				}
+				return false
+			}
+		}
+		return true
+	}
+	return false
+}
+
+// sideEffectFree: f writes only its own locals, updates no map, sends on no channel, starts no
+// goroutine and calls only pure / read-only library functions and side-effect-free repository
+// functions.
+func sideEffectFree(f *ssa.Function, depth int) bool {
+	if f.Blocks == nil || depth > 4 {
+		return false
+	}
+	dbg := func(in ssa.Instruction) {
+		if os.Getenv("GOVC_DEBUG") != "" {
+			fmt.Fprintf(os.Stderr, "sideEffectFree %s: rejected at %T %v\n", f, in, in)
+		}
+	}
+	for _, b := range f.Blocks {
+		for _, in := range b.Instrs {
+			switch v := in.(type) {
+			case *ssa.Store:
+				if al, ok := v.Addr.(*ssa.Alloc); !ok || al.Parent() != f {
+					dbg(in)
+					return false
+				}
+			case *ssa.MapUpdate, *ssa.Send, *ssa.Go, *ssa.Defer, *ssa.Panic:
+				dbg(in)
+				return false
+			case ssa.CallInstruction:
+				com := v.Common()
+				if _, isBuiltin := com.Value.(*ssa.Builtin); isBuiltin {
+					if n := com.Value.(*ssa.Builtin).Name(); n == "len" || n == "cap" || n == "min" || n == "max" || n == "ssa:deferstack" {
+						continue
+					}
+					dbg(in)
+					return false
+				}
+				callee := com.StaticCallee()
+				if callee == nil {
+					dbg(in)
+					return false
+				}
+				if isPureExternal(callee) || readOnlyExternal(callee) {
+					continue
+				}
+				if !sideEffectFree(callee, depth+1) {
+					dbg(in)
+					return false
+				}
+			}
+		}
+	}
+	return true
+}
+
+// freshSliceResult: generic library functions whose single result is a newly allocated slice.
+func freshSliceResult(fn *ssa.Function) bool {
+	o := fn
+	if og := fn.Origin(); og != nil {
+		o = og
+	}
+	if o.Pkg == nil || fn.Signature.Results().Len() != 1 {
+		return false
+	}
+	if _, ok := fn.Signature.Results().At(0).Type().Underlying().(*types.Slice); !ok {
+		return false
+	}
+	switch o.Pkg.Pkg.Path() + "." + o.Name() {
+	case "slices.Sorted", "slices.SortedFunc", "slices.SortedStableFunc", "slices.Collect", "slices.Clone", "slices.Concat", "slices.Repeat", "maps.Keys.collect":
+		return true
+	}
+	return false
+}
 
 func readOnlyExternal(fn *ssa.Function) bool {
 	if fn.Pkg == nil || !readOnlyPkgs[fn.Pkg.Pkg.Path()] || fn.Signature.Recv() != nil || fn.Signature.Variadic() {
